@@ -1,0 +1,146 @@
+/*
+ * Atree - Scalable Arrays and Ordered Maps
+ *
+ * Copyright Flow Foundation
+ *
+ * Licensed under the Apache License, Version 2.0 (the "License");
+ * you may not use this file except in compliance with the License.
+ * You may obtain a copy of the License at
+ *
+ *   http://www.apache.org/licenses/LICENSE-2.0
+ *
+ * Unless required by applicable law or agreed to in writing, software
+ * distributed under the License is distributed on an "AS IS" BASIS,
+ * WITHOUT WARRANTIES OR CONDITIONS OF ANY KIND, either express or implied.
+ * See the License for the specific language governing permissions and
+ * limitations under the License.
+ */
+
+//go:build verif
+
+package atree
+
+//@ # ---------------------------------------------------------------- map_elements_hashkey.go (C02, C05, C06, C12, C18)
+
+//@ # esz(el): the size an element reports, read from the heap (elements are updated in place, so this is state-dependent).
+//@ # element and elements are closed interfaces (unexported methods): their implementers are exactly the in-package ones.
+//@ pred elsSize(x elements) = ite(is(x, *hkeyElements), as(x, *hkeyElements).size, as(x, *singleElements).size)
+//@ pred esz(el element) = ite(is(el, *singleElement), as(el, *singleElement).size,
+//@      ite(is(el, *inlineCollisionGroup), 2 + elsSize(as(el, *inlineCollisionGroup).elements), as(el, *externalCollisionGroup).size))
+
+//@ iface element.Size() (n)
+//@   ensures n == esz(recv)
+//@   pure
+
+//@ # strictly ascending digests, one element per digest, size = prefix + sum of (digest + element size)
+//@ pred hkShape(e *hkeyElements) = e != nil && len(e.hkeys) == len(e.elems) && (forall k :: 0 <= k && k < len(e.elems) ==> e.elems[k] != nil)
+//@ pred hkSorted(e *hkeyElements) = forall i, j :: 0 <= i && i < j && j < len(e.hkeys) ==> e.hkeys[i] < e.hkeys[j]
+//@ pred hkSized(e *hkeyElements) = e.size == 8 + 8 * len(e.elems) + sum(esz, e.elems, len(e.elems))
+//@ pred hkPos(e *hkeyElements) = forall k :: 0 <= k && k < len(e.elems) ==> esz(e.elems[k]) >= 1
+//@ pred wfHk(e *hkeyElements) = hkShape(e) && hkSorted(e) && hkSized(e) && hkPos(e)
+
+//@ pred isKeyNotFound(err error) = errAs(err, *KeyNotFoundError)
+
+//@ pred isCollisionLimit(err error) = errAs(err, *CollisionLimitError)
+
+//@ func NewKeyNotFoundError(key) (r)  serves C18
+//@   trusted "errors.As follows Unwrap: NewUserError(&KeyNotFoundError{}) is both a user error and a KeyNotFoundError"
+//@   ensures r != nil && isUser(r) && isKeyNotFound(r) && !isFatal(r) && fresh(r)
+//@   modifies alloc
+
+//@ func NewCollisionLimitError(limit) (r)  serves C18
+//@   trusted "errors.As follows Unwrap: NewFatalError(&CollisionLimitError{}) is both a fatal error and a CollisionLimitError"
+//@   ensures r != nil && isFatal(r) && isCollisionLimit(r) && !isKeyNotFound(r) && fresh(r)
+//@   modifies alloc
+
+//@ # ---- caller-supplied key equality (A5: a function of its arguments) and element-level dictionary view
+//@ ghost keq : fn(key Value, stored Storable) bool
+//@ ghost ehas : fn(el element, key Value) bool
+//@ ghost ecount : fn(el element) int
+//@ # outcome of a lookup probe / of Count on an element (0 = success, 1 = key not found, 2 = other failure), as a function of its arguments (A5)
+//@ ghost gerr : fn(el element, key Value) int
+//@ ghost countOK : fn(el element) bool
+
+//@ functype ValueComparator(storage, key, stored) (eq, err)
+//@   ensures err == nil ==> eq == keq(key, stored)
+//@   pure
+
+//@ iface element.Get(storage, digester, level, hkey, comparator, key) (k, v, err)
+//@   ensures err == nil ==> k != nil && ehas(recv, key)
+//@   ensures err != nil ==> k == nil && v == nil
+//@   ensures isKeyNotFound(err) ==> !ehas(recv, key)
+//@   ensures (err == nil) == (gerr(recv, key) == 0) && isKeyNotFound(err) == (gerr(recv, key) == 1)
+//@   pure
+
+//@ iface element.Count(storage) (n, err)
+//@   ensures err == nil ==> n == ecount(recv)
+//@   ensures (err == nil) == countOK(recv)
+//@   pure
+
+//@ iface element.Set(storage, address, b, digester, level, hkey, comparator, hip, key, value) (newElem, ks, existing, err)
+//@   ensures err == nil ==> newElem != nil && ks != nil && (existing != nil) == old(ehas(recv, key))
+//@   ensures err != nil ==> newElem == nil
+//@   modifies singleElement.*@inSub(recv), inlineCollisionGroup.*@inSub(recv), externalCollisionGroup.*@inSub(recv), hkeyElements.*@inSub(recv), singleElements.*@inSub(recv),
+//@        ghost.sto, ghost.stored, ghost.touched, alloc
+
+//@ iface element.Remove(storage, digester, level, hkey, comparator, key) (k, v, newElem, err)
+//@   ensures err == nil ==> k != nil && old(ehas(recv, key))
+//@   ensures isKeyNotFound(err) ==> !old(ehas(recv, key))
+//@   modifies singleElement.*@inSub(recv), inlineCollisionGroup.*@inSub(recv), externalCollisionGroup.*@inSub(recv), hkeyElements.*@inSub(recv), singleElements.*@inSub(recv),
+//@        ghost.sto, ghost.stored, ghost.touched, alloc
+
+//@ iface Digester.Levels() (n)
+//@   ensures n == 4 || !is(recv, *basicDigester)
+//@   pure
+
+//@ func (e *hkeyElements) getElement(digester, level, hkey, key) (elem, idx, err)  serves C02 C12 C18
+//@   requires wfHk(e) && digester != nil
+//@   ensures[C02] err == nil ==> 0 <= idx && idx < len(e.hkeys) && e.hkeys[idx] == hkey && elem == e.elems[idx]
+//@   ensures[C02] (exists k :: 0 <= k && k < len(e.hkeys) && e.hkeys[k] == hkey) ==> err == nil || isFatal(err)
+//@   ensures[C18] err != nil ==> categorised(err) && elem == nil
+//@   ensures[C18] err != nil && !isFatal(err) ==> isUser(err) && (forall k :: 0 <= k && k < len(e.hkeys) ==> e.hkeys[k] != hkey)
+//@   modifies alloc
+//@   loop 1: invariant 0 <= i && i <= j && j <= len(e.hkeys) && equalIndex == -1 &&
+//@        (forall k :: 0 <= k && k < i ==> e.hkeys[k] < hkey) && (forall k :: j <= k && k < len(e.hkeys) ==> e.hkeys[k] > hkey)
+
+//@ func newSingleElement(storage, address, key, value) (el, err)  serves C02 C05 C06
+//@   requires storage != nil && key != nil && value != nil
+//@   ensures err == nil ==> el != nil && fresh(el) && el.key != nil && el.value != nil && el.size == 1 + bs(el.key) + bs(el.value) &&
+//@        bs(el.key) <= maxInlineMapKeySize && el.size <= maxInlineMapElementSize
+//@   ensures err != nil ==> el == nil && categorised(err)
+//@   modifies ghost.sto, ghost.stored, ghost.touched, alloc,
+//@        as(valueRoot(key), *ArrayDataSlab).header, as(valueRoot(key), *ArrayDataSlab).inlined, as(valueRoot(key), *MapDataSlab).header, as(valueRoot(key), *MapDataSlab).inlined,
+//@        as(valueRoot(value), *ArrayDataSlab).header, as(valueRoot(value), *ArrayDataSlab).inlined, as(valueRoot(value), *MapDataSlab).header, as(valueRoot(value), *MapDataSlab).inlined
+
+//@ pred sameHk(e *hkeyElements) = e.hkeys == old(e.hkeys) && e.elems == old(e.elems) && e.size == old(e.size) && e.level == old(e.level)
+
+//@ func (e *hkeyElements) Set(storage, address, b, digester, level, hkey, comparator, hip, key, value) (ks, existing, err)  serves C02 C05 C06 C12 C18
+//@   requires wfHk(e) && storage != nil && digester != nil && comparator != nil && key != nil && value != nil && e.size <= 4294900000
+//@   assume (forall k :: 0 <= k && k < len(e.elems) ==> inSub(e, e.elems[k]) && !inSub(e.elems[k], e) &&
+//@        !(is(e.elems[k], *inlineCollisionGroup) && as(e.elems[k], *inlineCollisionGroup).elements == e))
+//@        because "frame assumption F: elements belong to the subtree of the list that holds them, and not vice versa (a list is not nested inside its own elements)"
+//@   assume (forall el element :: esz(el) <= 2000000) because "element sizes are bounded by the inline limits (C05); keeps uint32 size arithmetic in range"
+//@   ensures[C02] err == nil && (forall k :: 0 <= k && k < len(old(e.hkeys)) ==> old(e.hkeys)[k] != hkey) ==>
+//@        existing == nil && len(e.hkeys) == len(old(e.hkeys)) + 1 &&
+//@        (exists p :: 0 <= p && p < len(e.hkeys) && e.hkeys[p] == hkey &&
+//@           (forall k :: 0 <= k && k < p ==> e.hkeys[k] == old(e.hkeys)[k] && e.elems[k] == old(e.elems)[k]) &&
+//@           (forall k :: p < k && k < len(e.hkeys) ==> e.hkeys[k] == old(e.hkeys)[k - 1] && e.elems[k] == old(e.elems)[k - 1]))
+//@   ensures[C02] err == nil && (exists k :: 0 <= k && k < len(old(e.hkeys)) && old(e.hkeys)[k] == hkey) ==>
+//@        e.hkeys == old(e.hkeys) && len(e.elems) == len(old(e.elems)) &&
+//@        (forall k :: 0 <= k && k < len(e.hkeys) && e.hkeys[k] != hkey ==> e.elems[k] == old(e.elems)[k])
+//@   ensures[C06] err == nil ==> hkShape(e) && e.level == old(e.level)
+//@   ensures[C02] err == nil ==> hkSorted(e)
+//@   ensures[C06] err == nil ==> hkSized(e)
+//@   ensures[C05] err == nil ==> hkPos(e)
+//@   ensures[C18] err != nil ==> sameHk(e)
+//@   ensures[C12] e.level == 0 && level < 4 && is(digester, *basicDigester) && (exists k :: 0 <= k && k < len(old(e.hkeys)) && old(e.hkeys)[k] == hkey && countOK(old(e.elems)[k]) &&
+//@        ecount(old(e.elems)[k]) >= 1 && ecount(old(e.elems)[k]) - 1 >= maxCollisionLimitPerDigest && gerr(old(e.elems)[k], key) == 1) ==>
+//@        isCollisionLimit(err) && sameHk(e) && sto == old(sto)
+//@   modifies hkeyElements.*@inSub(e), singleElement.*@inSub(e), inlineCollisionGroup.*@inSub(e), externalCollisionGroup.*@inSub(e), singleElements.*@inSub(e),
+//@        ghost.sto, ghost.stored, ghost.touched, alloc,
+//@        as(valueRoot(key), *ArrayDataSlab).header, as(valueRoot(key), *ArrayDataSlab).inlined, as(valueRoot(key), *MapDataSlab).header, as(valueRoot(key), *MapDataSlab).inlined,
+//@        as(valueRoot(value), *ArrayDataSlab).header, as(valueRoot(value), *ArrayDataSlab).inlined, as(valueRoot(value), *MapDataSlab).header, as(valueRoot(value), *MapDataSlab).inlined
+//@   loop 1: invariant 0 <= i && i <= j && j <= len(e.hkeys) && equalIndex == -1 && 0 <= lessThanIndex && lessThanIndex <= len(e.hkeys) &&
+//@        (forall k :: 0 <= k && k < i ==> e.hkeys[k] < hkey) && (forall k :: j <= k && k < len(e.hkeys) ==> e.hkeys[k] > hkey) &&
+//@        (j < len(e.hkeys) ==> lessThanIndex == j) && e.hkeys[len(e.hkeys) - 1] >= hkey && e.hkeys[0] <= hkey
+//@   loop 2: invariant 0 <= i && i <= len(e.elems) && size == 8 + 8 * i + sum(esz, e.elems, i)
